@@ -9,7 +9,8 @@ FAULT_MODES = ["before", "before", "after", "base", "dead"]
 
 @st.composite
 def reg_cases(draw, max_nodes=8, max_ops=6, faults=True, det_share=15, min_runs=1, disturb_last=False,
-              late=True, xdeps=False, alias=False, lits=2, sread=False, foreign=False, store_args=False):
+              late=True, xdeps=False, alias=False, lits=2, sread=False, foreign=False, store_args=False,
+              falsy=True, hoistable=True):
     g = specs.Gen(draw, registry=True, opaque=False, late=late, xdeps=xdeps, alias=alias, lits=lits, sread=sread,
                   foreign=foreign, store_args=store_args)
     n = draw(st.integers(2, max_nodes))
@@ -17,6 +18,17 @@ def reg_cases(draw, max_nodes=8, max_ops=6, faults=True, det_share=15, min_runs=
     while len(g.nodes) < n:
         g.add_any()
     nodes = g.nodes
+    if falsy:
+        for nd in nodes:
+            if (nd["k"] == "src" and not nd.get("alias") and not nd.get("foreign")) or nd.get("stored"):
+                if draw(st.integers(0, 5)) == 0:
+                    nd["falsy"] = True
+    hoist = []
+    if hoistable and draw(st.integers(0, 3)) == 0:
+        cand = [i for i, nd in enumerate(nodes)
+                if nd["k"] == "lit" or (nd["k"] == "src" and not nd.get("alias") and not nd.get("foreign"))]
+        if cand:
+            hoist = draw(st.permutations(cand))[: draw(st.integers(1, len(cand)))]
     pure = [i for i, nd in enumerate(nodes) if specs.src_kind(nd) == "pure" and not nd.get("foreign")]
     deletable = [i for i, nd in enumerate(nodes)
                  if (nd["k"] in ("call", "lit") and nd.get("stored")) or specs.src_kind(nd) == "dep"]
@@ -49,7 +61,10 @@ def reg_cases(draw, max_nodes=8, max_ops=6, faults=True, det_share=15, min_runs=
     # always end with a plain successful run so the history is judged
     ops.append({"op": "run", "cfg": draw(specs.run_configs(nodes=len(nodes))), "output": g.output(),
                 "sched": draw(harness.schedules(real_share=100 - det_share))})
-    return {"spec": {"nodes": nodes, "output": None}, "ops": ops}
+    spec = {"nodes": nodes, "output": None}
+    if hoist:
+        spec["hoist"] = list(hoist)
+    return {"spec": spec, "ops": ops}
 
 
 def times_of(w):
@@ -126,6 +141,10 @@ def spec_classes(spec):
         cl.append("source_with_extra_deps")
     if any(nd.get("foreign") for nd in nodes):
         cl.append("foreign_source")
+    if spec.get("hoist"):
+        cl.append("creation_order_not_topological")
+    if any(nd.get("falsy") for nd in nodes):
+        cl.append("falsy_store")
     if any(nd.get("sread") is not None for nd in nodes):
         cl.append("side_read")
     if any(nd.get("late") is not None for nd in nodes):
